@@ -24,6 +24,19 @@ func (fx *fexec) externModel(key string, x *ssa.Call, f *ssa.Function, args []Va
 		vc.note("extern bytes.Equal: extensional equality of the byte sequences (assumed)")
 		sc := &SpecCtx{vc: vc, st: st, old: st}
 		return Val{Ty: rt, T: vc.define(x.Name(), sc.bytesEqual(args[0], args[1]).T)}, true
+	case "bytes.HasPrefix":
+		// len(s) >= len(p) and the first len(p) bytes agree
+		vc.note("extern bytes.HasPrefix: the first len(prefix) bytes agree (assumed)")
+		s, p := args[0], args[1]
+		et := vc.under(s.Ty).(*types.Slice).Elem()
+		comp, srt := vc.elemComp(et)
+		h := vc.heapGet(st, comp, srt)
+		vc.ctr["qv"]++
+		k := Term{"q_k!" + itoa(vc.ctr["qv"]), SInt}
+		body := implies(and(le(intLit(0), k), lt(k, sLen(p.T))),
+			eq(sel(sel(h, sArr(s.T)), add(sOff(s.T), k)), sel(sel(h, sArr(p.T)), add(sOff(p.T), k))))
+		q := Term{"(forall ((" + k.S + " Int)) " + body.S + ")", SBool}
+		return Val{Ty: rt, T: vc.define(x.Name(), and(ge(sLen(s.T), sLen(p.T)), q))}, true
 	case "errors.New", "fmt.Errorf",
 		repoModule + "/tm2/pkg/errors.New", repoModule + "/tm2/pkg/errors.Wrap", repoModule + "/tm2/pkg/errors.Wrapf":
 		vc.note("extern " + key + ": returns a fresh non-nil error (assumed)")
